@@ -1868,9 +1868,15 @@ def replay_file(path):
     with runner.RunDir() as directory:
         _trial, v = replay_ops(rep, directory)
     want = rep["violation"]["class"]
-    if v is not None and v.cls == want:
+    same_op = (v is not None and rep["violation"].get("op_index") is not None
+               and v.detail.get("op_index") == rep["violation"].get("op_index"))
+    if v is not None and (v.cls == want or same_op):
+        # the same history failing at the same command is the same violation; the label can differ when the
+        # tree under test consults something outside the seams (a sweep reuses one fault-free twin for all
+        # positions, a replay recomputes it: a tree that asks the OS whether a pid is alive answers differently)
         print("VIOLATION property=C20 replay=%s" % path)
-        print("  class=%s detail=%s" % (v.cls, json.dumps(v.detail, default=str)[:700]))
+        print("  class=%s%s detail=%s" % (v.cls, "" if v.cls == want else " (recorded as %s)" % want,
+                                         json.dumps(v.detail, default=str)[:700]))
         return 1
     print("replay of %s did not reproduce class %s (got %s)" % (path, want, v.cls if v else None))
     return 0
